@@ -268,6 +268,7 @@ func C15(c *core.Ctx) {
 	c15Wrap(c)
 	c15WindowFilter(c)
 	c15Stdin(c)
+	c13Variants(c) // reading the alignment from stdin takes the reference off the stream, reading it from a file sends it through the workers: the aggregate table is the same, so the reference record is neither listed nor counted
 }
 
 // (R1, the reconciliation of the legacy --trim* flags with --start/--end, is decided by the command-layer scenarios of
